@@ -103,7 +103,11 @@ def model(grid, spec):
         kw['property_y'] = to_mapping(cell_values(shape, prof, 'y'), mapping)
     if case in ('VTI', 'triaxial'):
         kw['property_z'] = to_mapping(cell_values(shape, prof, 'z'), mapping)
-    if spec.get('mu_r'):
+    if spec.get('mu_r') == 'near1':
+        # weakly magnetic: |mu_r - 1| <= 1e-5 everywhere, but not 1
+        kw['mu_r'] = 1.0 + (cell_values(shape, 'rnd', 'm1', 0.1, 1.0)
+                            - 0.55)*1.8e-5
+    elif spec.get('mu_r'):
         kw['mu_r'] = cell_values(shape, prof, 'm', 0.5, 3.0)
     if spec.get('eps_r'):
         # large values so that the displacement term is visible at 1 Hz..1 kHz
